@@ -10,7 +10,7 @@ import time
 
 prop, lab = sys.argv[1], sys.argv[2]
 extra = sys.argv[3:]
-wt = os.environ.get("SEED_WT") or ("/tmp/seed2_%s" % prop if lab in ("C", "D") and os.path.isdir("/tmp/seed2_%s" % prop) else "/tmp/seed_%s" % prop)
+wt = os.environ.get("SEED_WT") or ("/tmp/seedr_%s_%s" % (prop, lab) if os.path.isdir("/tmp/seedr_%s_%s" % (prop, lab)) else None) or ("/tmp/seed2_%s" % prop if lab in ("C", "D") and os.path.isdir("/tmp/seed2_%s" % prop) else "/tmp/seed_%s" % prop)
 out = os.path.join(wt, "out")
 env = dict(os.environ, CARGO_NET_OFFLINE="true", CARGO_TARGET_DIR=os.path.join(wt, "target"))
 
